@@ -18,7 +18,7 @@ KIND = {
     "CreateViewStatement": "KCreateView", "CreateMaterializedViewStatement": "KCreateMView",
     "CreateIndexStatement": "KCreateIndex", "IndexColumn": "KIndexCol",
     "CreateTableStatement": "KCreateTable", "ColumnDef": "KColumnDef", "ColumnConstraint": "KColConstraint",
-    "TableConstraint": "KTabConstraint",
+    "TableConstraint": "KTabConstraint", "DescribeStatement": "KDescribe",
 }
 SLOT = {
     ("SelectStatement", "With"): "SWith", ("SelectStatement", "Columns.[*]"): "SColumns",
@@ -59,6 +59,7 @@ SLOT = {
     ("ColumnDef", "Constraints.[*]"): "SConstraints",
     ("ColumnConstraint", "Default"): "SDefault", ("ColumnConstraint", "Check"): "SCheck",
     ("TableConstraint", "Check"): "SCheck",
+    ("DescribeStatement", "Query"): "SQuery",
 }
 # attribute -> {type: field}
 ATTR = {
@@ -66,7 +67,8 @@ ATTR = {
              "InsertStatement": "TableName", "UpdateStatement": "TableName", "DeleteStatement": "TableName",
              "CommonTableExpr": "Name", "SetClause": "Column",
              "CreateViewStatement": "Name", "CreateMaterializedViewStatement": "Name", "CreateIndexStatement": "Name",
-             "IndexColumn": "Column", "CreateTableStatement": "Name", "ColumnDef": "Name", "TableConstraint": "Name"},
+             "IndexColumn": "Column", "CreateTableStatement": "Name", "ColumnDef": "Name", "TableConstraint": "Name",
+             "DescribeStatement": "TableName"},
     "qual": {"Identifier": "Table", "CreateIndexStatement": "Table"},
     "op": {"BinaryExpression": "Operator", "SetOperation": "Operator", "UnaryExpression": "Operator",
            "JoinClause": "Type", "MergeWhenClause": "Type", "MergeAction": "ActionType",
@@ -185,6 +187,7 @@ ROOT_PROBES = [
     ("KCreateMView", "CreateMaterializedViewStatement", "CREATE MATERIALIZED VIEW zmv AS SELECT SLEEP(5) FROM t1"),
     ("KCreateIndex", "CreateIndexStatement", "CREATE INDEX zi ON t1 (a) WHERE SLEEP(5) > 0"),
     ("KCreateTable", "CreateTableStatement", "CREATE TABLE zt (a INT DEFAULT (SLEEP(5)))"),
+    ("KDescribe", "DescribeStatement", "EXPLAIN SELECT SLEEP(5) FROM t1"),
 ]
 
 
